@@ -29,8 +29,8 @@ STRATA = [
     ("cs-two", 800, 8000),
     ("cs-degenerate", 400, 5000),
     ("cs-tight", 300, 4000),
-    ("custom-cols", 400, 5000),
-    ("custom-cycles", 300, 4000),
+    ("custom-cols", 1200, 12000),
+    ("custom-cycles", 900, 9000),
     ("custom-from-cs", 120, 1500),
     ("cs-config", 500, 6000),
     ("custom-config", 250, 3000),
@@ -76,6 +76,15 @@ def _cs(W, sizes, dem, rng, **kw):
          "bp_max_nodes": rng.choice([None] * 8 + [1, 2, 4, 8]), "float_width": rng.random() < 0.15}
     c.update(kw)
     return c
+
+
+def _with_duplicates(rng, init):
+    """initial_columns is a list: the same column may be listed more than once (valid input)."""
+    init = list(init)
+    if init and rng.random() < 0.45:
+        for _ in range(rng.randint(1, 3)):
+            init.insert(rng.randrange(len(init) + 1), rng.choice(init))
+    return init
 
 
 def gen(stratum, rng, tier):
@@ -227,6 +236,7 @@ def gen(stratum, rng, tier):
                     init.append(cand[0] if cand else units[i])
             if not init:
                 init = [units[0]]
+        init = _with_duplicates(rng, init)
         return {"kind": "custom", "dem": dem, "cols": sorted(cols), "init": [tuple(c) for c in init],
                 "pick": rng.choice(["best", "best", "first"]), "bp_max_iter": rng.choice([50, 1000, None])}
     if stratum == "custom-cycles":
@@ -256,6 +266,7 @@ def gen(stratum, rng, tier):
                 init.append(next(c for c in pool if c[i] > 0))
         if rng.random() < 0.3:
             init = pool
+        init = _with_duplicates(rng, init)
         return {"kind": "custom", "dem": dem, "cols": sorted(cols), "init": [tuple(c) for c in init],
                 "pick": rng.choice(["best", "first"]), "bp_max_iter": rng.choice([50, None])}
     if stratum == "custom-from-cs":
